@@ -42,10 +42,11 @@ REQUIRED_COUNTERS = ['errors_calls', 'unreachable_seen', 'invalid_role_seen', 'c
                      'cli_subprocess', 'cli_exit_nonzero', 'cli_exit_zero']
 SRC = ['a', 'b', 'c', 'i']
 TGT = ['a', 'b', 'c', 'i', 'x', None]
-ROLES = [':instance', ':ARG0', ':ARG0-of', ':foo', ':foo-of', ':consist-of', ':mod']
+ROLES = [':instance', ':ARG0', ':ARG0-of', ':foo', ':foo-of', ':consist-of', ':mod', ':ARG0-of-of',
+         ':consist-of-of', ':consist-of-of-of', ':mod-of-of-of', ':TOP', ':op1']
 MODELS_E = ['default', 'amr', 'mini', 'rand1', 'rand2']
 GOOD = [':ARG0', ':ARG1', ':mod', ':op1', ':polarity', ':consist-of', ':time']
-BADR = [':foo', ':stroke', ':ARG10', ':consist', ':foo-of-of']
+BADR = [':foo', ':stroke', ':ARG10', ':consist', ':foo-of-of', ':ARG0-of-of', ':ARG1-of-of-of', ':consist-of-of-of']
 
 
 def cases(ctx):
